@@ -170,9 +170,16 @@ def run(ck, ctx):
                       ast.unparse(s.value) == ast.unparse(loops[0].target) for s in sets), "", mn.loc(loops[0]))
     ce = m.func("simple_ddl_parser.cli:correct_extension")
     exts = None
-    for n in ast.walk(ce.node):
-        if isinstance(n, ast.Assign) and isinstance(n.value, (ast.List, ast.Tuple, ast.Set)) and all(isinstance(x, ast.Constant) for x in n.value.elts):
-            exts = {x.value for x in n.value.elts}
+    cands = [n.value for n in ast.walk(ce.node) if isinstance(n, ast.Assign)] + list(ce.module.assigns.values())
+    used = {n.id for n in ast.walk(ce.node) if isinstance(n, ast.Name)}
+    for nm, v in ce.module.assigns.items():
+        if nm not in used and v in cands:
+            cands.remove(v)
+    for v in cands:
+        if isinstance(v, (ast.List, ast.Tuple, ast.Set)) and v.elts and all(isinstance(x, ast.Constant) and isinstance(x.value, str) for x in v.elts):
+            vals = {x.value for x in v.elts}
+            if {"sql", "ddl"} & {e.lstrip(".") for e in vals}:
+                exts = vals
     ck.ob("T-CLI", "accepted extensions include sql, ddl, hql, bql", exts is not None and {"sql", "ddl", "hql", "bql"} <= {e.lstrip(".") for e in exts},
           str(exts), ce.loc())
     src = ast.unparse(ce.node)
